@@ -172,6 +172,7 @@ class World:
         self.trigger_pulls = 0
         self.map_mutations = []
         self.failed = None
+        self.gates = {}
         self._last_poll_nevents = -1
         self._idle_polls = 0
         self.spinning = False
